@@ -122,6 +122,7 @@ class SchedulingSolver(BaseModelWithJson):
         self._objective = None  # the list of all objectives defined in this problem
         self._model = None  # no solution until the problem is solved
         self._map_boolrefs_to_constraints = {}
+        self._tracked_identifiers = []  # debug mode: one identifier per assertion
         self._initialized = False
 
         if self.debug:
@@ -198,6 +199,7 @@ class SchedulingSolver(BaseModelWithJson):
     def initialize(self):
         # create the solver
         print("Solver type:\n===========")
+        self._tracked_identifiers = []
 
         # check if the problem is an optimization problem
         self._is_not_optimization_problem = len(self.problem.objectives) == 0
@@ -425,6 +427,7 @@ class SchedulingSolver(BaseModelWithJson):
             for asst in assts:
                 asst_identifier = f"asst_{uuid.uuid4().hex[:8]}"
                 self._solver.assert_and_track(asst, asst_identifier)
+                self._tracked_identifiers.append(asst_identifier)
                 # if the higher_contraint_name is defined, fill in the map_boolrefs_to_geometric_constraints dict
                 # to track the constraint that causes the conflict
                 if higher_constraint_name is not None:
@@ -924,6 +927,15 @@ class SchedulingSolver(BaseModelWithJson):
         with open(smt_filename, "w", encoding="utf-8") as outfile:
             if isinstance(self._solver, z3.Optimize):
                 # z3.Optimize has no to_smt2 method, sexpr is the SMT-LIB2 export
-                outfile.write(self._solver.sexpr())
+                smt2 = self._solver.sexpr()
             else:
-                outfile.write(self._solver.to_smt2())
+                smt2 = self._solver.to_smt2()
+            if self._tracked_identifiers:
+                # debug mode: z3 exports a tracked assertion as "identifier => assertion",
+                # the identifiers have to be asserted for the file to denote the problem
+                tracked = "".join(
+                    f"(assert {identifier})\n"
+                    for identifier in self._tracked_identifiers
+                )
+                smt2 = smt2.replace("(check-sat)", f"{tracked}(check-sat)")
+            outfile.write(smt2)
